@@ -7,5 +7,7 @@ CONSTANTS
   GuardFix = FALSE
   CleanupFix = FALSE
   SerialReg = FALSE
+  MaxBatch = 0
+  RetryEnds = TRUE
 INVARIANTS AllGone NoCrash OwnCleanupOnly NewestSender NewestReceiver
 CHECK_DEADLOCK FALSE
